@@ -90,13 +90,17 @@ func pkgSet(rev int) []*synthrepo.Pkg {
 		synthrepo.File{Name: "usr/share/app.dat", Mode: 0o644, Content: big[:3000]})}
 	unsigned := &synthrepo.Pkg{Name: "plain", Version: "1-r0", Origin: "plain", Unsigned: true, Files: append(dirs("opt"),
 		synthrepo.File{Name: "opt/plain.txt", Mode: 0o644, Content: []byte("unsigned package\n")})}
+	solo := &synthrepo.Pkg{Name: "solo", Version: "3.0-r0", Origin: "solo", Files: append(dirs("srv", "srv/solo"),
+		synthrepo.File{Name: "srv/solo/a.bin", Mode: 0o644, Content: big[:9000]},
+		synthrepo.File{Name: "srv/solo/b.txt", Mode: 0o644, Content: []byte(fmt.Sprintf("solo data of revision %d\n", rev))},
+		synthrepo.File{Name: "srv/solo/c.bin", Mode: 0o600, Content: big[:1234]})}
 	if rev >= 1 {
 		// same name-version, different bytes (a rebuilt package) and a new version of lib
 		app.Files[len(app.Files)-2].Content = []byte("app rev1 -- rebuilt")
 		lib.Version = "0.4-r0"
 		lib.Files[len(lib.Files)-1].Content = big[:7000]
 	}
-	return []*synthrepo.Pkg{base, lib, app, unsigned}
+	return []*synthrepo.Pkg{base, lib, app, unsigned, solo}
 }
 
 func newWorld(nrev int) (*world, error) {
